@@ -226,14 +226,24 @@ func runConc(s ConcSpec, watchdog time.Duration) (*rec.Trace, ConcResult) {
 		}(w)
 	}
 	go func() { wg.Wait(); close(done) }()
-	select {
-	case <-done:
-	case <-time.After(watchdog):
-		buf := make([]byte, 1<<20)
-		n := runtime.Stack(buf, true)
-		res.Watchdog = fmt.Sprintf("workers did not finish within %v\n%s", watchdog, buf[:n])
-		res.Events = tr.Len()
-		return tr, res
+	// a hang is "no API event recorded during a whole watchdog period" - a slow machine makes progress
+	last := -1
+waiting:
+	for {
+		select {
+		case <-done:
+			break waiting
+		case <-time.After(watchdog):
+			if n := tr.Len(); n != last {
+				last = n
+				continue
+			}
+			buf := make([]byte, 1<<20)
+			n := runtime.Stack(buf, true)
+			res.Watchdog = fmt.Sprintf("no call returned for %v\n%s", watchdog, buf[:n])
+			res.Events = tr.Len()
+			return tr, res
+		}
 	}
 	// final state, after the background work has drained (steering only)
 	waitIdle(st, 5*time.Second)
